@@ -71,6 +71,8 @@ def edits_for_module(mod, seed):
     devs = deviate.module_devs(tkey, seed, spikes="few", opt8="few")
     if tkey == "Sampler":
         devs = devs + sampler_edits(mod)
+    if tkey == "MetaModule":
+        devs = devs + [{"k": "mm_map", "i": i, "v": [1, 0]} for i in (1, 26, 27, 63, 64, 70, 95)]
     return devs + [o for o in c17.inplace_ops(tkey) if o["k"] not in ("ip_links", "ip_ctlvalues", "ip_optvalues", "mm_uvalue")]
 
 
@@ -208,9 +210,16 @@ def module_path(mi):
     return "module" if mi is None else f"modules[{mi}]"
 
 
-def check_edit(src, data, mi, e):
-    """Returns (status, violations)."""
-    case = {"src": src, "module": mi, "edit": e}
+PRESAVE_KINDS = {"cell", "pattr", "pclear", "pbulk", "praw", "elem", "fill", "mcmap", "opt", "cmid", "smp_field", "smp_loop",
+                 "smp_drop", "env_field", "map1", "ip_elem", "ip_cmid", "ip_mcmap", "mm_count", "mm_label", "mm_map",
+                 "mm_inner_module", "mm_inner_name", "sm_env_append", "sm_env_point0", "sm_env_flag", "sm_notemap",
+                 "sm_sample", "sm_effect", "sm_vibrato", "sv_harmonic", "mmud"}
+
+
+def check_edit(src, data, mi, e, presave=False):
+    """Returns (status, violations).  With presave the loaded object is saved once (and cloned) BEFORE the edit:
+    whatever a save leaves behind (a cache of packed bytes, ...) must not make the next save ignore the edit."""
+    case = {"src": src, "module": mi, "edit": e, "presave": presave}
     ek = e["k"] + ":" + str(e.get("n") or e.get("p") or e.get("e") or "")
     # s0 is observed on a SEPARATE load of the same bytes: the object that is edited must not have been
     # touched by the harness before the edit (an observation could e.g. trigger a lazy decode)
@@ -218,7 +227,10 @@ def check_edit(src, data, mi, e):
     obj = C.load_bytes(data)
     mtype = (obj.modules[mi].mtype if mi is not None else getattr(getattr(obj, "module", None), "mtype", None)) \
         if e["k"] not in PROJECT_LEVEL else "Project"
-    key = {"type": mtype, "edit": ek}
+    key = {"type": mtype, "edit": ek, "presave": presave} if presave else {"type": mtype, "edit": ek}
+    if presave:
+        obj.read()
+        obj.clone()
     try:
         apply_edit(obj, mi, e)
     except Exception as ex:
@@ -236,6 +248,27 @@ def check_edit(src, data, mi, e):
         outside = [x for x in d01 if not x[0].startswith(pref)]
         if mtype in ("MultiCtl",):
             outside = [x for x in outside if not x[0].startswith("modules[")]  # fan-out to linked targets (N14)
+    # finer locality for element-wise payload edits: only the addressed element may change
+    allowed = None
+    k = e["k"]
+    if k in ("mm_map",):
+        allowed = (f"payload.mappings[{e['i']}]", "controllers")       # + the mapped user-defined controller (N14)
+    elif k in ("mcmap", "ip_mcmap"):
+        allowed = (f"payload.mappings[{e['i']}]",)
+    elif k in ("elem", "ip_elem") and mtype != "SpectraVoice":
+        allowed = (f"payload.{e['p']}[{e['i']}]",)
+    elif k == "map1":
+        allowed = (f"payload.note_samples[{e['i']}]",)
+    elif k in ("smp_field", "smp_loop"):
+        allowed = (f"payload.samples.{e['i']}.",)
+    elif k == "env_field":
+        en = e["e"]
+        allowed = ("payload.envelopes." + (en if en.startswith("effect") else en.replace("_envelope", "")),)
+    if allowed is not None and e["k"] not in PROJECT_LEVEL:
+        pref = module_path(mi) + "."
+        allowed = tuple(allowed) + ("chnk",)     # the declared chunk count follows the payload (Generator: no chunk while default)
+        inside = [x for x in d01 if x[0].startswith(pref) and not any(x[0][len(pref):].startswith(a) for a in allowed)]
+        outside = outside + inside
     if outside:
         vs.append(C.viol("edit-changes-other-state", dict(key, path=S.generic_path(outside[0][0])),
                          {"diff": S.diff_text(outside)}, case))
@@ -281,7 +314,7 @@ def sources(ctx):
 
 def run_case(case):
     data = source_bytes(case["src"])
-    return check_edit(case["src"], data, case["module"], case["edit"])[1]
+    return check_edit(case["src"], data, case["module"], case["edit"], case.get("presave", False))[1]
 
 
 def _task(t):
@@ -298,6 +331,11 @@ def _task(t):
                 work = [(mi, e) for e in edits_for_module(mod, seed)]
     for mi, e in work[lo:hi]:
         st, vs = check_edit(src, data, mi, e)
+        if st == "ok" and e["k"] in PRESAVE_KINDS:
+            st2, vs2 = check_edit(src, data, mi, e, presave=True)
+            vs = vs + vs2
+            r["evals"] += 1
+            C.count(r, "presave")
         r["evals"] += 1
         C.count(r, st.split(":")[0])
         r["digests"].add(C.h8(repr((src.get("fixture") or src.get("type") or src["case"]["label"], mi, e)).encode()))
@@ -339,7 +377,7 @@ def run(ctx):
         "rule": "every (loaded file, module, catalogue edit) triple; non-trivial = the edit changed the object's snapshot "
                 "(edits equal to the loaded value or rejected by the API are counted separately)",
         "exhaustive": True,
-        "sources": nsrc, "edits_without_effect": agg.counters.get("no-change", 0),
+        "sources": nsrc, "edits_repeated_after_a_save": agg.counters.get("presave", 0), "edits_without_effect": agg.counters.get("no-change", 0),
         "edits_rejected_by_api": agg.counters.get("rejected", 0),
         "samples": agg.samples,
     }
